@@ -281,3 +281,84 @@ func init() {
 			"the engine always splits and labels rows per interface; the reference does the same"},
 	})
 }
+
+// ---- C08.cond: generated conditions of the grammar through the engine -----------------
+
+var c08CondList []*fixture.Cond
+
+// c08GenConds: every single leaf of the core alphabet (incl. host/net sugar) plain and
+// negated, plus all two-leaf trees over the same-field leaf set.
+func c08GenConds() []*fixture.Cond {
+	if c08CondList != nil {
+		return c08CondList
+	}
+	for _, l := range fixture.Leaves(fixture.LeavesCore) {
+		c08CondList = append(c08CondList, l, fixture.Not(l))
+	}
+	small := fixture.Leaves(fixture.LeavesSmall)
+	for _, a := range small {
+		for _, b := range small {
+			for i := 0; i < fixture.NumTree2; i++ {
+				c08CondList = append(c08CondList, fixture.Tree2(a, b, i))
+			}
+		}
+	}
+	return c08CondList
+}
+
+const c08CondChunks = 16
+
+func c08CondRun(x *explore.Ctx) {
+	shapes := c08Shapes()[2:] // mixed, mixed + v6 address with trailing zero bytes
+	sh := shapes[x.Case%len(shapes)]
+	chunk := (x.Case / len(shapes)) % c08CondChunks
+	all := c08GenConds()
+	var mine []*fixture.Cond
+	for i := chunk; i < len(all); i += c08CondChunks {
+		mine = append(mine, all[i])
+	}
+	cond := mine[x.Choose(len(mine), "condition")]
+	withTime := x.Choose(2, "time-label") == 1
+	dbPath := c08DB(sh)
+	text := fixture.Render(cond, fixture.Symbols)
+	qtype := "sip,dip,dport,proto"
+	if withTime {
+		qtype += ",time"
+	}
+	x.Logf("db=%s query=%q cond=%q", sh.name, qtype, text)
+	res, err := fixture.RunQuery(dbPath, qtype, "any", text, 0, 1<<40, false)
+	x.Transition()
+	if err != nil {
+		x.Fail("query-error:"+cond.Shape(), "condition %q on %s failed: %v", text, sh.name, err)
+		return
+	}
+	pred := func(r fixture.Rec) bool {
+		return fixture.Eval(cond, fixture.Flow{SIP: r.SIP, DIP: r.DIP, Dport: r.Dport, Proto: r.Proto})
+	}
+	want := sh.db.Aggregate(fixture.QuerySpec{Attrs: c08Attrs, Time: withTime, Iface: true, Ifaces: []string{"eth0", "eth1"}, First: 0, Last: 1 << 40, Cond: pred})
+	got, dup := fixture.RowsOf(res)
+	if dup != nil {
+		x.Fail("duplicate-group", "condition %q: group %s returned twice", text, dup)
+		return
+	}
+	if d := fixture.DiffRows(got, want); d != "" {
+		x.Fail("rows:"+cond.Shape(), "condition %q on %s: %s", text, sh.name, d)
+		return
+	}
+	x.Obs("%s %d", text, len(want))
+	if n := len(sh.db.Aggregate(fixture.QuerySpec{Attrs: c08Attrs, Time: withTime, Iface: true, Ifaces: []string{"eth0", "eth1"}, First: 0, Last: 1 << 40})); len(want) > 0 && len(want) < n {
+		x.Nontrivial("%s|%s|%v", sh.name, text, withTime)
+	}
+}
+
+func init() {
+	register("C08.cond", &explore.Scenario{
+		ID: "C08", Name: "generated conditions through the query engine", Level: "exploration",
+		Rule: "cases = 2 mixed-family databases x 16 chunks of the generated condition list (every leaf of the core alphabet incl. host/net sugar - all attributes x allowed comparators x alphabet values x prefixes {0,1,7,8,9,31,32}/{0,1,63,64,65,127,128} - plain and negated, plus every two-leaf tree ({&,|} x 4 negation placements) over 8 same-field leaves), with and without the time label; each condition is rendered to text and run through engine.QueryRunner.Run over 'any'; rows must equal the reference aggregation under the reference condition semantics (fixture.Eval). non-trivial = conditions selecting a proper non-empty subset",
+		Cases:    func(t string) int { return 2 * c08CondChunks },
+		Bound:    func(t string) int { return 0 },
+		Run:      c08CondRun,
+		Setup:    func(string) { engine.VerifSetNumProcessingUnits(2) },
+		PanicSig: "panic",
+	})
+}
